@@ -5,5 +5,5 @@ $G one "$1" | python3 -c "
 import json,sys
 d=json.load(sys.stdin)
 for k in ['states','transitions','executions','steps','max_depth','layers','capped','fixpoint','phases','distinct_obs','viol_count','wall_s']: print(k,d[k])
-for v in d['violations']: print('VIOL',v['kind'],v['msg'][:300]); print('   ',len(v['history']), [o for o in v['history'] if not (o.startswith('Insert(') and o.endswith(',0)'))], v['history'][-3:]); open('/tmp/lasthist.txt','w').write(';'.join(v['history']))
+for v in d['violations']: print('VIOL',v['kind'],v['msg'][:400]); print('   ',len(v['history']), [o for o in v['history'] if not ((o.startswith('Insert(') or o.startswith('SInsert(')) and o.endswith(',0)'))], v['history'][-3:]); open('/tmp/lasthist.txt','w').write(';'.join(v['history']))
 "
